@@ -17,7 +17,7 @@ Not decided: that eigsh converges; the numeric value of the bound.
 import ast
 
 from ..engines.solvers import find_setup
-from ..srcmodel import AnalysisError, U, calls_in, walk_shallow, target_names, names_in
+from ..srcmodel import clone, AnalysisError, U, calls_in, walk_shallow, target_names, names_in
 from ..symexpr import SymEval, Atoms, Alg, Rat, sym, const
 
 INF = 'src/mbi/inference.py'
@@ -414,9 +414,9 @@ def normalise_seq(fi, expr, setup_fi):
                 v = ds[-1].value
                 ok = isinstance(v, (ast.Attribute, ast.Name)) or (isinstance(v, ast.Call) and U(v.func) in ('sorted', 'list', 'tuple'))
                 if ok and node.id not in {n.id for n in ast.walk(v) if isinstance(n, ast.Name)}:
-                    return Sub(self.depth + 1).visit(copy.deepcopy(v))
+                    return Sub(self.depth + 1).visit(clone(v))
             return node
-    text = U(Sub().visit(copy.deepcopy(expr)))
+    text = U(Sub().visit(clone(expr)))
     ctor = [c for c in calls_in(setup_fi.node) if isinstance(c.func, ast.Name) and c.func.id == 'GraphicalModel']
     if ctor and U(ctor[0].args[0]) == 'self.domain':
         text = text.replace('self.model.domain', 'self.domain')
